@@ -338,6 +338,27 @@ def afterStop (s : State) (th : Thread) : List State :=
 
 def othersIdle (s : State) (_t : Nat) : Bool := s.threads.length == 1
 
+def Op.isFlush : Op → Bool
+  | .flush _ => true
+  | _ => false
+
+def Op.isWaitingFlush : Op → Bool
+  | .flush true => true
+  | _ => false
+
+def Op.isTerminate : Op → Bool
+  | .terminate => true
+  | _ => false
+
+def Op.isRestart : Op → Bool
+  | .restart => true
+  | _ => false
+
+/-- The calls that connect endpoints while holding the lifecycle lock. -/
+def Op.connects : Op → Bool
+  | .resume | .reset | .create _ => true
+  | _ => false
+
 def threadSteps (s : State) (th : Thread) : List (Label × State) :=
   match th.ph with
   | .pending =>
@@ -368,25 +389,27 @@ def threadSteps (s : State) (th : Thread) : List (Label × State) :=
       if t != th.id then [] else
       match ph with
       | .stopping => if s.loop.isNone then (afterStop s th).map fun s' => (.tau, s') else []
-      | .connA c => [(.ep (.conn .alpha), { s with crit := some (t, .connB c) })]
+      | .connA c => if !th.op.connects then [] else [(.ep (.conn .alpha), { s with crit := some (t, .connB c) })]
       | .connB c =>
+        if !th.op.connects then [] else
         -- both endpoints connected: (create: save the files, register), start the loop
         let s1 : State := if c then { s with sess := some false, arch := some false, entry := true } else s
         [(.ep (.conn .beta), finish ({ s1 with crit := none }.startLoop .connA true) th .ok)]
     | none => []
-  | .termDel => [(.tau, finish { s with entry := false } th .ok)]
+  | .termDel => if !th.op.isTerminate then [] else [(.tau, finish { s with entry := false } th .ok)]
   | .reload =>
     -- NewManager: load what is on disk into a fresh controller (the old one was
     -- shut down: no loop, lock free)
-    if s.loop.isSome || s.crit.isSome || !othersIdle s th.id then [] else
+    if s.loop.isSome || s.crit.isSome || !othersIdle s th.id || !th.op.isRestart then [] else
     match s.sess with
     | some p =>
       let s1 : State := { s with entry := true, disabled := false, running := false, crit := none }
       [(.tau, finish (if p then s1 else s1.startLoop .connA false) th .ok)]
     | none => [(.tau, finish { s with entry := false } th .ok)]
   | .fsend g =>
+    if !th.op.isFlush then [] else
     let live := s.loop.isSome && s.gen == g
-    let wait := th.op == .flush true
+    let wait := th.op.isWaitingFlush
     (if live && s.flushQ.isNone then
       [(.tau, if wait then { s with flushQ := some th.id }.setThread { th with ph := .fwait g }
               else finish { s with flushQ := some th.id } th .ok)]
@@ -394,6 +417,7 @@ def threadSteps (s : State) (th : Thread) : List (Label × State) :=
     (if !live || !s.sync then [(.tau, finish s th .lost)] else []) ++
     (if !wait && !(live && s.flushQ.isNone) then [(.tau, finish s th .ok)] else [])
   | .fwait g =>
+    if !th.op.isWaitingFlush then [] else
     let live := s.loop.isSome && s.gen == g
     (if th.answered then [(.tau, finish s th .ok)] else []) ++
     (if !live || !s.sync then [(.tau, finish s th .lost)] else [])
